@@ -251,16 +251,17 @@ func (e *Executor) RunTask(ctx context.Context, call *Call) error {
 			}
 
 			if err := e.runCommand(ctx, t, call, i); err != nil {
+				exitCode, isExitError := interp.IsExitStatus(err)
+				if isExitError && t.IgnoreError {
+					// an ignored failure is no failure of the task: its fingerprint stays
+					e.Logger.VerboseErrf(logger.Yellow, "task: task error ignored: %v\n", err)
+					continue
+				}
+
 				if err2 := e.statusOnError(t); err2 != nil {
 					e.Logger.VerboseErrf(logger.Yellow, "task: error cleaning status on error: %v\n", err2)
 				}
-
-				exitCode, isExitError := interp.IsExitStatus(err)
 				if isExitError {
-					if t.IgnoreError {
-						e.Logger.VerboseErrf(logger.Yellow, "task: task error ignored: %v\n", err)
-						continue
-					}
 					deferredExitCode = exitCode
 				}
 
